@@ -482,6 +482,47 @@ def c_known_iter_search(eng, st, fr, f, args, site):
     return outs
 
 
+@contract(r"^(std|core)::option::Option::<T>::iter$|^(std|core)::option::Option::<T>::into_iter$|^<(std|core)::option::Option<T> as (std|core)::iter::IntoIterator>::into_iter$|^(std|core)::option::<impl (std|core)::iter::IntoIterator for &'a (std|core)::option::Option<T>>::into_iter$")
+def c_option_iter(eng, st, fr, f, args, site):
+    """Option::iter / into_iter: an iterator with zero or one known element (decided per variant)."""
+    e, r = as_enum(eng, st, args[0])
+    rt = ret_ty(eng, site)
+    if e is None or rt is None:
+        return None
+    by_ref = f["path"].endswith("::iter") or "for &'a" in f["path"]
+    outs = []
+    for ns, vi, fs in split_variants(eng, st, e, r):
+        if vi == 0:
+            elems = []
+        elif by_ref:
+            loc = "obj:optit#%d" % eng._hv()
+            ns.locs[loc] = fs[0]
+            elems = [Ref(loc, (), False)]
+        else:
+            elems = [fs[0]]
+        outs.append((ns, Cont("iter:arr", "arrit#%d" % eng._hv(), Lin.const(len(elems)), None, (("elems", tuple(elems), 0),), rt)))
+    return outs
+
+
+@contract(r"(^|[ :<])(std|core)::iter::Iterator::chain(::<.*>)?$")
+def c_known_chain(eng, st, fr, f, args, site):
+    a = force(eng, st, args[0])
+    b = force(eng, st, args[1]) if len(args) > 1 else None
+    ok = lambda x: isinstance(x, Cont) and x.kind == "iter:arr" and x.segs and x.segs[0][0] == "elems"
+    if not (ok(a) and ok(b)):
+        return None
+    ea, eb = a.segs[0][1][a.segs[0][2]:], b.segs[0][1][b.segs[0][2]:]
+    return [(st, _mk_known(eng, a, list(ea) + list(eb), ret_ty(eng, site)))]
+
+
+@contract(r"^<(std|core)::iter::(Chain|Map|Filter|Rev|Copied|Cloned|Enumerate)<.*> as (std|core)::iter::Iterator>::next$|^<(std|core)::option::(Iter|IntoIter)<.*> as (std|core)::iter::Iterator>::next$")
+def c_adaptor_next(eng, st, fr, f, args, site):
+    """next() on an adaptor / option iterator that was evaluated eagerly into a known-element iterator."""
+    if _known_iter(eng, st, args[0]) is None:
+        return None
+    return c_array_iter_next(eng, st, fr, f, args, site)
+
+
 def _mk_known(eng, it, elems, rt):
     return Cont("iter:arr", "arrit#%d" % eng._hv(), Lin.const(len(elems)), None, (("elems", tuple(elems), 0),), rt if rt is not None else it.ty)
 
